@@ -168,7 +168,7 @@ func runC07(r *Run) {
 		trigger string // none cancel deadline close
 		callers int
 	}
-	faults := []string{"dial-error", "dial-blocks", "write-error", "read-eof", "read-reset", "short-frame", "garbage-frame", "close-in-flight", "silence", "silence-after-traffic", "cancel-while-dialing-then-next"}
+	faults := []string{"dial-error", "dial-blocks", "write-error", "read-eof", "read-reset", "short-frame", "garbage-frame", "close-in-flight", "silence", "silence-after-traffic", "cancel-while-dialing-then-next", "dial-completes-after-close"}
 	triggers := []string{"none", "cancel", "deadline", "close"}
 	var scens []scen
 	for _, kind := range []string{"pipeline-tcp", "pipeline-udp", "reuse"} {
@@ -180,6 +180,9 @@ func runC07(r *Run) {
 				if f == "cancel-while-dialing-then-next" && tr != "cancel" {
 					continue
 				}
+				if f == "dial-completes-after-close" && tr != "close" {
+					continue // the dialer ignores its context: only Close followed by the dial's own completion ends it
+				}
 				for _, n := range []int{1, 3} {
 					scens = append(scens, scen{kind, f, tr, n})
 				}
@@ -190,7 +193,7 @@ func runC07(r *Run) {
 	if !r.Thorough() && len(scens) > 150 {
 		keep := scens[:150]
 		for _, sc := range scens[150:] {
-			if sc.fault == "cancel-while-dialing-then-next" || sc.fault == "silence-after-traffic" {
+			if sc.fault == "cancel-while-dialing-then-next" || sc.fault == "silence-after-traffic" || sc.fault == "dial-completes-after-close" {
 				keep = append(keep, sc)
 			}
 		}
@@ -202,7 +205,8 @@ func runC07(r *Run) {
 		var mu sync.Mutex
 		var conns []*fakeConn
 		dialGate := make(chan struct{})
-		dialBlocks := sc.fault == "dial-blocks" || sc.fault == "cancel-while-dialing-then-next"
+		dialBlocks := sc.fault == "dial-blocks" || sc.fault == "cancel-while-dialing-then-next" || sc.fault == "dial-completes-after-close"
+		dialIgnoresCtx := sc.fault == "dial-completes-after-close" // a handshake that wins the race against the cancellation
 		nWrites := 0
 		answered := 0
 		onWrite := func(c *fakeConn, w []byte) error {
@@ -262,7 +266,9 @@ func runC07(r *Run) {
 			if sc.fault == "dial-error" {
 				return nil, errors.New("dial refused (injected)")
 			}
-			if dialBlocks {
+			if dialIgnoresCtx {
+				<-dialGate
+			} else if dialBlocks {
 				select {
 				case <-dialGate:
 				case <-ctx.Done():
@@ -279,8 +285,12 @@ func runC07(r *Run) {
 		}
 		var ex func(ctx context.Context, q []byte) (*[]byte, error)
 		var closeT func()
+		idleTimeout := 10 * time.Second
+		if dialIgnoresCtx {
+			idleTimeout = 1000 * time.Second // it must be Close, not the idle timeout, that releases the late connection
+		}
 		if sc.kind == "reuse" {
-			t := transport.NewReuseConnTransport(transport.ReuseConnOpts{IdleTimeout: 10 * time.Second, DialContext: func(ctx context.Context) (transport.NetConn, error) {
+			t := transport.NewReuseConnTransport(transport.ReuseConnOpts{IdleTimeout: idleTimeout, DialContext: func(ctx context.Context) (transport.NetConn, error) {
 				c, err := dial(ctx)
 				if err != nil {
 					return nil, err
@@ -294,7 +304,7 @@ func runC07(r *Run) {
 				if err != nil {
 					return nil, err
 				}
-				return transport.NewDnsConn(transport.TraditionalDnsConnOpts{WithLengthHeader: stream, IdleTimeout: 10 * time.Second, MaxConcurrentQuery: 16}, c), nil
+				return transport.NewDnsConn(transport.TraditionalDnsConnOpts{WithLengthHeader: stream, IdleTimeout: idleTimeout, MaxConcurrentQuery: 16}, c), nil
 			}})
 			ex, closeT = t.ExchangeContext, func() { t.Close() }
 		}
@@ -368,7 +378,7 @@ func runC07(r *Run) {
 				if rs.took > bound {
 					r.Fail("an exchange returned later than the transport's liveness timeouts / its context allow", desc)
 				}
-				faulty := sc.fault != "silence-after-traffic" && sc.fault != "cancel-while-dialing-then-next" && !(sc.fault == "write-error" && sc.callers > 1) && sc.fault != "dial-blocks"
+				faulty := sc.fault != "silence-after-traffic" && sc.fault != "cancel-while-dialing-then-next" && sc.fault != "dial-completes-after-close" && !(sc.fault == "write-error" && sc.callers > 1) && sc.fault != "dial-blocks"
 				if faulty && rs.ok {
 					r.Fail("an exchange reported success although its connection failed before any reply", desc)
 				}
@@ -414,6 +424,18 @@ func runC07(r *Run) {
 			}
 		} else if dialBlocks {
 			close(dialGate)
+			if dialIgnoresCtx {
+				// the dial returns its connection only now, after Close: give the transport's dial goroutine time to see it
+				for i := 0; i < 200; i++ {
+					mu.Lock()
+					k := len(conns)
+					mu.Unlock()
+					if k > 0 {
+						break
+					}
+					time.Sleep(time.Millisecond)
+				}
+			}
 		}
 		for _, c := range ctxs {
 			c()
